@@ -410,6 +410,9 @@ func (p *Path) decide(c *term.Term, where string) bool {
 	if !canT && !canF {
 		panic(abortPath{"both branches infeasible at " + where})
 	}
+	if p.unknownFeas > p.X.MaxUnknownFeas {
+		panic(engineErr{fmt.Sprintf("UNWIND: more than %d branch decisions of unknown feasibility on one path (last at %s)", p.X.MaxUnknownFeas, where)})
+	}
 	take := canT
 	if canT && canF {
 		// fork: alternative explores the false side
@@ -497,6 +500,29 @@ func (p *Path) concretizeBig(t *term.Term, where string) *big.Int {
 	}
 	var cands []cand
 	var excl []*term.Term
+	if leaves, ok := iteLeaves(t, p.X.MaxConcretize); ok && len(leaves) > 2 {
+		// an ite tree with constant leaves: test each leaf value separately
+		sort.Slice(leaves, func(i, j int) bool { return leaves[i].Cmp(leaves[j]) < 0 })
+		var cur *big.Int
+		if p.hasModel {
+			cur = p.evalT(t)
+			cands = append(cands, cand{v: cur})
+		}
+		for _, v := range leaves {
+			if cur != nil && v.Cmp(cur) == 0 {
+				continue
+			}
+			r, env, benv := p.feasible(p.C.Eq(t, p.C.Const(v)))
+			switch r {
+			case term.Sat:
+				cands = append(cands, cand{v: v, env: env, benv: benv})
+			case term.Unknown:
+				p.unknownFeas++
+				cands = append(cands, cand{v: v, noModel: true})
+			}
+		}
+		goto chosen
+	}
 	if p.hasModel {
 		v := p.evalT(t)
 		cands = append(cands, cand{v: v})
@@ -547,6 +573,7 @@ func (p *Path) concretizeBig(t *term.Term, where string) *big.Int {
 		cands = append(cands, cand{v: v, env: env, benv: benv})
 		excl = append(excl, p.C.Ne(t, p.C.Const(v)))
 	}
+chosen:
 	if len(cands) == 0 {
 		panic(abortPath{"no feasible value at " + where})
 	}
@@ -687,6 +714,7 @@ type Exec struct {
 	MaxPaths          int
 	FeasTimeout       time.Duration
 	NLFeasTimeout     time.Duration
+	MaxUnknownFeas    int
 	SampleTries       int
 	NoMerge           bool
 	Seed              int
